@@ -77,6 +77,39 @@ func main() {
 			repl[src] = dst
 		}
 	}
+	// store.Alerts.List returns the alerts in Go map order, which the dispatcher
+	// uses when it (re)starts; give it a seeded, reproducible order instead (any
+	// order is a legal one). Done textually on the current file; if the function
+	// no longer looks as expected the file is left alone.
+	if src, err := os.ReadFile(filepath.Join(*repo, "store/store.go")); err == nil {
+		text := string(src)
+		sig := "func (a *Alerts) List() []*types.Alert {"
+		if i := strings.Index(text, sig); i >= 0 {
+			rest := text[i:]
+			if j := strings.Index(rest, "\n\treturn alerts\n}"); j >= 0 && !strings.Contains(rest[:j], "\nfunc ") {
+				patched := text[:i] + rest[:j] + "\n\tsort.Slice(alerts, func(i, j int) bool {\n\t\treturn simrand.Key(uint64(alerts[i].Fingerprint())) < simrand.Key(uint64(alerts[j].Fingerprint()))\n\t})" + rest[j:]
+				patched = strings.Replace(patched, "import (\n", "import (\n\t\"sort\"\n\tsimrand \"verif/sim/simrand\"\n", 1)
+				if fset := token.NewFileSet(); true {
+					if f, err := parser.ParseFile(fset, "store.go", patched, parser.ParseComments); err == nil {
+						// drop a duplicate "sort" import if the file already had one
+						seen := map[string]bool{}
+						ok := true
+						for _, im := range f.Imports {
+							if seen[im.Path.Value] {
+								ok = false
+							}
+							seen[im.Path.Value] = true
+						}
+						if ok {
+							dst := filepath.Join(*out, "store_store.go")
+							must(os.WriteFile(dst, []byte(patched), 0o644))
+							repl[filepath.Join(*repo, "store/store.go")] = dst
+						}
+					}
+				}
+			}
+		}
+	}
 	b, _ := json.MarshalIndent(map[string]any{"Replace": repl}, "", " ")
 	must(os.WriteFile(filepath.Join(*out, "overlay.json"), b, 0o644))
 }
